@@ -127,6 +127,16 @@ def requires_hold(ctx, Dz, s, requires, cmp_sigs=None, found=None):
             cands.append((pp, site))
             par = pp
             depth += 1
+        if kind == 'operand':
+            # an operand of the aborting call itself derives from a call of `val` (e.g. the length compared by an assert_eq! is the
+            # length of the de-duplicated set, not of the list it was built from)
+            from engine.defuse import DefUse
+            t = body.blocks[s.bid].term
+            du_ = DefUse(body)
+            ok = t.kind == 'call' and any(o[0] == 'call' and o[1].endswith(val) for a in t.args for o in du_.origins(a, stop_at_calls=True))
+            if not ok:
+                missing.append(r)
+            continue
         for b, blk in cands:
             c = P.cfg(b)
             gf = Dz.gf(b)
